@@ -38,8 +38,12 @@ def check_receivers(ctx, sc, r=None):
         if not np.allclose(mono[k], pw_all[k].sum(axis=0), rtol=1e-12, atol=0):
             ctx.violation('mono-not-sum', 'mono curve is not the sum of the patch-wise curves', dict(energy.scene_input(sc), recs=recs), None, None)
             return
+        # blockers: the walls as GIVEN to from_polygon (not what the object stores)
+        sp_ = common.import_repo()
+        walls_in = sp_.testing.shoebox_room_stub(*sc['sides'])
         vis = geometry._check_point2patch_visibility(
-            eval_point=recs[k], patches_center=r.patches_center, surf_points=r.walls_points, surf_normal=r.walls_normal)
+            eval_point=recs[k], patches_center=r.patches_center,
+            surf_points=np.array([w.pts for w in walls_in]), surf_normal=np.array([w.normal for w in walls_in], dtype=float))
         for j in range(r.n_patches):
             d = float(np.linalg.norm(r.patches_center[j] - recs[k]))
             n = int(np.ceil(d / r.speed_of_sound / r._etc_time_resolution))
